@@ -115,6 +115,34 @@ Inductive op :=
                                                the calls [cs] in order (its receipt carries the logs of all of them),
                                                then PostTxProcessing *)
 
+(** * spellings of the string fields of a message
+
+    Every address and token identifier reaches the chain as a STRING: the hex fields
+    (MsgConvertCoin.Receiver, MsgConvertERC20.ContractAddress / Sender, the `token` of
+    ToggleConversion and of the TokenPair query) are checked with common.IsHexAddress and
+    resolved with common.HexToAddress, the bech32 fields (MsgConvertCoin.Sender,
+    MsgConvertERC20.Receiver, bank MsgSend, the refunded sender of an ICS-20 packet) with
+    sdk.AccAddressFromBech32, the receiver of a received ICS-20 packet with
+    utils.GetHaqqAddressFromBech32.  The conversion functions below take the RESOLVED
+    actors; a [spell] says how the three string fields of the message were written
+    (the numbers are the ones the harness prints):
+
+    hex address      0 EIP-55 mixed case with 0x (what the chain prints)   1 0x + lower case
+                     2 0x + upper-case digits   3 0x + mixed case with a wrong checksum
+                     4 lower case without 0x    5 EIP-55 without 0x   6 0X + upper-case digits
+                     7.. not an address (38 hex digits)
+    bech32 address   0 haqq1... lower case   1 HAQQ1... upper case   2 cosmos1... (another prefix)
+                     3 the hex address   4.. mixed-case bech32
+    token            0 the pair's denomination   1..7 the contract address in hex spelling 0..6
+                     8 not an address   9.. the denomination in another letter case (denominations are
+                     case sensitive: a different, unregistered denomination) *)
+Record spell := mkspell { sp_c : N; sp_a : N; sp_b : N }.   (* contract / token, sender [a], receiver [b] *)
+Definition csp : spell := mkspell 0 0 0.                      (* everything as the chain prints it *)
+Definition hex_ok (k : N) : bool := (k <? 7)%N.                                   (* common.IsHexAddress *)
+Definition bech_ok (k : N) : bool := (k <? 2)%N.                                  (* sdk.AccAddressFromBech32 *)
+Definition bech_any_ok (k : N) : bool := N.eqb k 0 || N.eqb k 2.              (* utils.GetHaqqAddressFromBech32 *)
+Definition tok_ok (k : N) : bool := (k <? 8)%N.                                   (* GetTokenPairID finds the pair *)
+
 Definition blocked (a : N) : bool := N.eqb a MODULE.
 (** accounts for which somebody holds a key (the harness' key holders) *)
 Definition has_key (a : N) : bool := N.eqb a 1 || N.eqb a 2 || N.eqb a 3 || N.eqb a DEPLOYER.
@@ -410,6 +438,63 @@ Section Model.
     end.
 
   Definition run (ops : list op) (s : st T) : st T := fold_left (fun s o => fst (step s o)) ops s.
+
+  (** ** a message as it is WRITTEN: the operation (resolved actors) and its spelling *)
+
+  (** does the chain's parsing accept every string field of the message in this spelling? *)
+  Definition spell_ok (o : op) (sp : spell) : bool :=
+    match o with
+    | CC _ _ _ => bech_ok (sp_a sp) && hex_ok (sp_b sp)
+    | CE _ _ _ => hex_ok (sp_c sp) && hex_ok (sp_a sp) && bech_ok (sp_b sp)
+    | Send _ _ _ => bech_ok (sp_a sp) && bech_ok (sp_b sp)
+    | Toggle => tok_ok (sp_c sp)
+    | Recv _ _ _ _ _ => bech_any_ok (sp_b sp)       (* packet receiver *)
+    | Ack _ _ _ _ _ => bech_ok (sp_b sp)            (* packet sender = the refunded account *)
+    | Timeout _ _ _ _ => bech_ok (sp_b sp)
+    | _ => true                                     (* Ethereum transactions carry 20 bytes; MsgTransfer fails anyway *)
+    end.
+
+  (** a spelling the parsing refuses: ValidateBasic (in its order of checks, behind the
+      "nobody signs for the module account" rule of the harness) resp. the callback fails
+      before anything happens.  Two callbacks never read the string: OnRecvPacket when the
+      module is switched off, OnAcknowledgementPacket for a success acknowledgement. *)
+  Definition refused (s : st T) (o : op) (sp : spell) : st T * N :=
+    match o with
+    | CC a _ x => (s, if x <=? 0 then EFunds else if N.eqb a MODULE then EUnauth else EOther)
+    | CE a _ x => (s, if (0 <? x) && N.eqb a MODULE then EUnauth else
+                      if negb (hex_ok (sp_c sp)) then EOther else
+                      if x <=? 0 then EFunds else EOther)
+    | Send a _ x => (s, if (0 <? x) && N.eqb a MODULE then EUnauth else EOther)
+    | Toggle => (s, ENotFound)
+    | Recv _ _ _ _ _ => if erc20_on s then (s, EOther) else step s o
+    | Ack success _ _ b _ => if success && negb (N.eqb b MODULE) then (s, OK) else (s, EOther)
+    | Timeout _ _ _ _ => (s, EOther)
+    | _ => step s o
+    end.
+
+  (** the step function of the correspondence: the outcome of an accepted message is
+      [step] of the RESOLVED operation, whatever the spelling *)
+  Definition step_sp (s : st T) (sp : spell) (o : op) : st T * N :=
+    if spell_ok o sp then step s o else refused s o sp.
+
+  Definition run_sp (h : list (spell * op)) (s : st T) : st T :=
+    fold_left (fun s e => fst (step_sp s (fst e) (snd e))) h s.
+
+  (** NOT the code of /repo: convertERC20NativeToken with an Approval monitor that only looks at
+      the logs whose emitting contract, compared as a STRING (evmtypes.Log.Address is always the
+      EIP-55 spelling), equals the contract address as the MESSAGE spells it: in any other
+      spelling no log matches and the monitor is silently skipped. *)
+  Definition ce_native_token_strcmp (s : st T) (sp : spell) (sender receiver : N) (x : Z) : st T * N :=
+    match balance_of tk (tok s) MODULE with None => (s, EOther) | Some b0 =>
+    match call_transfer tk (tok s) sender MODULE x with None => (s, EOther) | Some (t1, ret, logs) =>
+    match ret with None => (s, EOther) | Some false => (s, EFalse) | Some true =>
+    match balance_of tk t1 MODULE with None => (s, EOther) | Some b1 =>
+    if negb (b1 =? b0 + x) then (s, EBalance) else
+    if MAXU <? supply s + x then (s, EOther) else
+    match approval_check (if N.eqb (sp_c sp) 0 then logs else []) with
+    | 0%N => (set_all s (zset (cbal s) receiver (zget (cbal s) receiver + x)) (supply s + x) t1, OK)
+    | e => (s, e)
+    end end end end end.
 End Model.
 
 (** * the honest token: OpenZeppelin ERC20 + ERC20Burnable + minter/burner role
@@ -772,11 +857,11 @@ Definition observe {T} (tk : token T) (s : st T) (res : N) : obs :=
         (map (zget (cbal s)) actors) (supply s)
         (map (balance_of tk (tok s)) actors) (total_supply tk (tok s)) (is_contract tk (tok s)).
 
-Fixpoint check_from {T} (tk : token T) (i : nat) (s : st T) (h : list (op * obs)) : option nat :=
+Fixpoint check_from {T} (tk : token T) (i : nat) (s : st T) (h : list (spell * op * obs)) : option nat :=
   match h with
   | [] => None
-  | (o, ob) :: r =>
-      let '(s', res) := step tk impl s o in
+  | (sp, o, ob) :: r =>
+      let '(s', res) := step_sp tk impl s sp o in
       if bool_decide (observe tk s' res = ob) then check_from tk (S i) s' r else Some i
   end.
 
@@ -785,7 +870,7 @@ Definition init_supply : Z := 10 ^ 24.   (* constructor mint of the two maliciou
 
 (** kinds: 0 coin-origin pair (the module's own contract); 1 honest external
     token; 2 siphon; 3 approve; 4 const; 5 fakelog; 6 chameleon *)
-Definition check_hist (kind : N) (h : list (op * obs)) : option nat :=
+Definition check_hist (kind : N) (h : list (spell * op * obs)) : option nat :=
   match kind with
   | 0%N => check_from honest_token 0 (init true {[FAR := 1]} 1 (mkledger ∅ 0 MODULE)) h
   | 1%N => check_from honest_token 0 (init false ∅ 0 (mkledger ∅ 0 DEPLOYER)) h
@@ -841,14 +926,14 @@ Definition mcheck (m : mcase) : bool :=
   bool_decide (logs = map fst (m_logs m)) &&
   forallb (fun e => Bool.eqb (snd e) (match lookup_pair w (lc (fst e)) with Some _ => true | None => false end)) (m_logs m).
 
-Definition check_case (c : N * list (op * obs) * list mcase) : option nat :=
+Definition check_case (c : N * list (spell * op * obs) * list mcase) : option nat :=
   let '(kind, h, ms) := c in
   match check_hist kind h with
   | Some i => Some i
   | None => if forallb mcheck ms then None else Some (length h)
   end.
 
-Fixpoint mismatches_from (i : nat) (cs : list (N * list (op * obs) * list mcase)) : list nat :=
+Fixpoint mismatches_from (i : nat) (cs : list (N * list (spell * op * obs) * list mcase)) : list nat :=
   match cs with
   | [] => []
   | c :: r => match check_case c with
